@@ -204,6 +204,15 @@ func vfStrIn(s string, list []string) bool {
 	return false
 }
 func vfSymbolic(v interface{}) bool { return false }
+func vfDistinct(l []string) {
+	for i := range l {
+		for j := i + 1; j < len(l); j++ {
+			if l[i] == l[j] {
+				vfAssume(false, "vfDistinct")
+			}
+		}
+	}
+}
 func vfContains(s, sub string) bool { return strings.Contains(s, sub) }
 
 func vfMarshal(v interface{}) []byte {
